@@ -641,7 +641,7 @@ func check(id, tier, repo string, writeEvidence bool) int {
 	exit := 0
 	newViol := 0
 	var knownLines, violLines, replayMisses []string
-	raceMinimised := 0
+	raceMinimised, freshMinimised := 0, 0
 	for _, c := range classes {
 		v := m.viol[c]
 		if what, ok := known[id+"|"+c]; ok {
@@ -687,6 +687,13 @@ func check(id, tier, repo string, writeEvidence bool) int {
 			// a report inside one process): do it here, one fresh process per candidate
 			raceMinimised++
 			r.minimiseFresh(useBin, v, func(cl string) bool { return strings.HasPrefix(cl, "C18/race/") })
+		}
+		if v.MinOps == v.OrigOps && v.OrigOps > 3 && freshMinimised < 3 && !strings.HasPrefix(c, "C18/race/") {
+			// the worker could not shrink the script at all: the violation did not
+			// recur inside the (by then warmed-up) worker process. It reproduces in a
+			// fresh process, so shrink it there.
+			freshMinimised++
+			r.minimiseFresh(useBin, v, func(cl string) bool { return cl == c })
 		}
 		newViol++
 		violLines = append(violLines, fmt.Sprintf("VIOLATION property=%s replay=%s", id, v.Replay))
